@@ -5,6 +5,7 @@ import (
 	"reflect"
 
 	"github.com/xjslang/xjs/lexer"
+	"github.com/xjslang/xjs/parser"
 	"github.com/xjslang/xjs/token"
 
 	"verif/fw"
@@ -219,10 +220,68 @@ func runC13Smart(t *fw.T) {
 	}
 }
 
+// builder options are copied into each parser: a parser built earlier keeps its modes when the builder is
+// reconfigured afterwards (build -> reconfigure -> build -> parse, in any order)
+func runC13Reconfigure(t *fw.T) {
+	r := t.Rand()
+	var src string
+	switch r.IntN(3) {
+	case 0:
+		g := gen.NewSyn(r, gen.SynOpts{ExprDepth: 2, StmtDepth: 2, MaxStmts: 4})
+		rd := gen.Render(g.Program(), r, gen.EmitOpts{}, gen.Layout{Semi: 0.3, Space: 1, StmtNL: 0.6, Fuse: 0.7, CutBrace: r.IntN(3)})
+		src = rd.Src
+	case 1:
+		g := gen.NewSyn(r, gen.SynOpts{ExprDepth: 2, StmtDepth: 2, MaxStmts: 4})
+		p := g.Program()
+		p.Kids = append(p.Kids, gen.ExprStmt(gen.Bin("*", gen.Bin("+", gen.Id("a"), gen.Id("b")), gen.Id("c"))), gen.ExprStmt(gen.Dot(&gen.Node{K: gen.KArr, Kids: []*gen.Node{gen.Num("1")}}, "len")))
+		src = gen.Render(p, r, gen.EmitOpts{}, gen.Layout{Semi: 0, Space: 1, StmtNL: 1, Smart: true}).Src
+	default:
+		_, rd := randProgram(r)
+		src = mutate(r, rd)
+	}
+	n := 2 + r.IntN(3)
+	modes := make([]Mode, n)
+	for i := range modes {
+		modes[i] = AllModes[r.IntN(4)]
+	}
+	wit := func() map[string]any { return map[string]any{"source": src, "modes_in_build_order": fmt.Sprint(modes)} }
+	var built []*parser.Parser
+	ok := t.Guard("build", wit, func() {
+		pb := parser.NewBuilder(lexer.NewBuilder())
+		for _, m := range modes {
+			pb.WithTolerantMode(m.Tolerant).WithSmartSemicolon(m.Smart)
+			built = append(built, pb.Build(src))
+		}
+	})
+	if !ok {
+		return
+	}
+	order := r.Perm(n)
+	for _, i := range order {
+		var got, want ParseOut
+		if !t.Guard("parse", wit, func() {
+			prog, err := built[i].ParseProgram()
+			got = ParseOut{Prog: prog, Err: err, Errors: built[i].Errors()}
+			want = parse(src, modes[i])
+		}) {
+			return
+		}
+		t.Count("parsers_built_before_reconfiguration", 1)
+		if !reflect.DeepEqual(got.Errors, want.Errors) || !reflect.DeepEqual(got.Prog, want.Prog) {
+			w := wit()
+			w["parser_number"] = i + 1
+			w["its_mode"] = modes[i].String()
+			t.Violate("reconfigured-builder-changes-built-parser", "mode flags", fmt.Sprintf("parser #%d was built in mode %s; after the builder was reconfigured (%v) it no longer parses like a fresh %s parser: %s", i+1, modes[i], modes, modes[i], gen.Describe(src)), w)
+			return
+		}
+	}
+	t.Distinct(src + fmt.Sprint(modes))
+}
+
 func init() {
 	fw.Register(&fw.Property{
 		ID: "C13", Level: "exploration",
-		Rule: "differential between the four mode combinations of the real parser: (a) strict-accepted => tolerant tree reflect.DeepEqual and no errors; (b) generated trees rendered with fused statements / cut closing braces => tolerant accepts and keeps every statement (S-expression equal to the generated tree); (c) no '(' / '[' first on a line => smart == default (trees and error lists DeepEqual), also on malformed inputs; (d) line-separated statements beginning with '(' / '[' => smart mode yields the generated tree (the ';'-separated variant is confirmed by acorn). distinct = distinct source texts.",
+		Rule: "differential between the four mode combinations of the real parser: (a) strict-accepted => tolerant tree reflect.DeepEqual and no errors; (b) generated trees rendered with fused statements / cut closing braces => tolerant accepts and keeps every statement (S-expression equal to the generated tree); (c) no '(' / '[' first on a line => smart == default (trees and error lists DeepEqual), also on malformed inputs; (d) line-separated statements beginning with '(' / '[' => smart mode yields the generated tree (the ';'-separated variant is confirmed by acorn); (f) a builder reconfigured after Build: parsers built earlier still parse like fresh parsers of their own mode. distinct = distinct source texts.",
 		Assumptions: []string{
 			"(e) '(' / '[' first on a line inside an expression (multi-line call arguments) is only run for totality, not judged: the statement speaks of statements",
 			"fused pairs are only those whose second statement cannot continue the first",
@@ -249,6 +308,7 @@ func init() {
 			}},
 			{Name: "tolerant", Quick: 3000, Thorough: 40000, Run: runC13Tolerant},
 			{Name: "smart", Quick: 3000, Thorough: 40000, Run: runC13Smart},
+			{Name: "builder-reconfigured-after-build", Quick: 3000, Thorough: 30000, PanicInconclusive: true, Run: runC13Reconfigure},
 			{Name: "smart-inside-expression-observed", Quick: 300, Thorough: 3000, PanicInconclusive: true, Run: func(t *fw.T) {
 				r := t.Rand()
 				g := gen.NewSyn(r, gen.SynOpts{ExprDepth: 3, StmtDepth: 1, MaxStmts: 3})
